@@ -112,8 +112,14 @@ def enum_crashes(seed):
 
         def __getattr__(self, name):
             real = getattr(os, name)
+            if name == "supports_follow_symlinks":
+                # membership is tested on the function objects: the wrapped ones stand for the real ones (otherwise the code under test
+                # silently takes its "platform cannot set a symlink's times" branch)
+                return set(real) | {getattr(self, n) for n in WRAP if getattr(os, n) in real}
             if name not in WRAP:
                 return real
+            if name in self.__dict__.setdefault("_wrapped", {}):
+                return self._wrapped[name]
 
             def f(*a, **k):
                 if self.dead:
@@ -125,6 +131,7 @@ def enum_crashes(seed):
                     self.dead = True
                     raise _Stop()
                 return real(*a, **k)
+            self._wrapped[name] = f
             return f
     mode_eio = [0]
     try:
@@ -142,7 +149,7 @@ def enum_crashes(seed):
                     fp = os.path.join(src, n)
                     open(fp, "w").write(f"same content {n}")
                     os.chown(fp, 1234 + s, 77)
-                    os.chmod(fp, (0o700, 0o4711, 0o640)[i_])
+                    os.chmod(fp, ((0o700, 0o4711, 0o640) if s != 16 else (0, 0o4711, 0o004))[i_])     # one round with a file of mode 0: "no permission at all" is a mode like any other
                     os.utime(fp, (1500 + i_ + s,) * 2)
             else:
                 # a hardlink group of three names in the package, merged over regular files of the same names
